@@ -284,6 +284,26 @@ fn mutations(t: &Tlv) -> Vec<(String, Vec<u8>)> {
             }
         }
     }
+    // the message ID rewritten to values that are not a message ID (beyond 2^31-1, negative):
+    // whatever happens to the frame, it is not a response to the operation pending on the original ID
+    if let Some(idnode) = paths.iter().find(|p| p.as_slice() == [0]) {
+        for (label, content) in [
+            ("2^32+orig", vec![0x01u8, 0x00, 0x00, 0x00]),
+            ("2^40+orig", vec![0x01, 0x00, 0x00, 0x00, 0x00]),
+            ("2^64+orig", vec![0x01, 0x00, 0x00, 0x00, 0x00, 0x00, 0x00, 0x00]),
+            ("2^31", vec![0x00, 0x80, 0x00, 0x00]),
+            ("2^31-as-4-octets", vec![0x80, 0x00, 0x00]),
+            ("0xff-prefix", vec![0xff, 0xff, 0xff]),
+        ] {
+            let mut m = t.clone();
+            if let Body::Prim(v) = &get(t, idnode).body {
+                let mut c = content.clone();
+                c.extend_from_slice(v);
+                get_mut(&mut m, idnode).body = Body::Prim(c);
+                out.push((format!("foreign-id({})@[0]", label), ber::encode(&m)));
+            }
+        }
+    }
     // whole-frame truncation at every byte
     let whole = ber::encode(t);
     for k in 1..whole.len() {
@@ -403,6 +423,17 @@ fn through_driver(rep: &Reporter, label: &str, bytes: &[u8], pending_search: boo
             rep.note(&format!("caller-side panic (not judged): {}", d));
         }
     }
+    if label.contains("foreign-id(") {
+        // nobody may be handed this frame
+        let served: Vec<String> = o.logs.iter().flatten().filter(|x| matches!(&x.ret, Ret::Res(_) | Ret::Exop(..) | Ret::Item(Some(_)) | Ret::SearchRes(..)) || matches!(&x.ret, Ret::Fin(r) if r.rc != 88)).map(|x| format!("{} -> {:?}", x.call, x.ret)).collect();
+        if !served.is_empty() {
+            rep.violation(
+                "driver:foreign-id-delivered",
+                &format!("[{}] a frame whose message ID is not the pending operation's ({}) was handed to a caller: {:?}", scn.name, ber::hex(bytes), served),
+                replay2(),
+            );
+        }
+    }
     let driver_err = o.driver.starts_with("returned Err");
     if driver_err {
         // every pending operation must observe the failure
@@ -497,7 +528,9 @@ pub fn run(tier: Tier) -> i32 {
         let ident = label.contains(":ident(");
         let result_msg = label.starts_with("done/") || label.starts_with("bind/noctl");
         let unmatched = (i as usize) >= n_matched;
-        let run_driver = if unmatched {
+        let run_driver = if label.contains("foreign-id(") {
+            true
+        } else if unmatched {
             tier == Tier::Thorough || i % 3 == 0 || label.contains("deleted@") || label.contains("emptied@") || label.contains("len=")
         } else if ident { result_msg && (tier == Tier::Thorough || label.starts_with("done/noctl") || i % 5 == 0) } else { i % stride == 0 };
         if run_driver || label.ends_with("unmutated") {
@@ -543,20 +576,26 @@ pub fn run(tier: Tier) -> i32 {
     }
     // ---- c. nesting depth (child process, 2 MiB-stack thread like a tokio worker)
     let mut depth_results = vec![];
-    for depth in [10usize, 100, 1000, 10_000, 100_000, 250_000] {
+    let mut depth_cases: Vec<(usize, &str)> = [10usize, 100, 1000, 10_000, 100_000, 250_000].iter().map(|d| (*d, "universal")).collect();
+    for w in ["context", "application", "private", "mixed"] {
+        for d in [65usize, 1000, 150_000, 250_000] {
+            depth_cases.push((d, w));
+        }
+    }
+    for (depth, wrapper) in depth_cases {
         let exe = std::env::current_exe().unwrap();
-        let out = std::process::Command::new(exe).args(["C11", "--depth", &depth.to_string()]).output();
+        let out = std::process::Command::new(exe).args(["C11", "--depth", &depth.to_string(), wrapper]).output();
         evals.fetch_add(1, Ordering::Relaxed);
         match out {
             Ok(o) => {
                 let txt = String::from_utf8_lossy(&o.stdout).to_string();
                 let ok = o.status.code() == Some(0) && (txt.contains("outcome=Frame") || txt.contains("outcome=Error"));
-                depth_results.push(json!({"depth": depth, "status": format!("{:?}", o.status.code()), "stdout": txt.trim()}));
+                depth_results.push(json!({"depth": depth, "nested_identifier": wrapper, "status": format!("{:?}", o.status.code()), "stdout": txt.trim()}));
                 if !ok {
                     rep.violation(
                         "decode:stack-overflow",
-                        &format!("decoding {} nested constructed elements ({} bytes) ended with status {:?} / {:?} (a signal means the stack overflowed)", depth, depth * 6, o.status.code(), txt.trim()),
-                        json!({"engine":"c11","lane":"depth","depth":depth}),
+                        &format!("decoding {} nested constructed elements ({} identifiers, {} bytes) ended with status {:?} / {:?} (a signal means the stack overflowed)", depth, wrapper, depth * 6, o.status.code(), txt.trim()),
+                        json!({"engine":"c11","lane":"depth","depth":depth,"wrapper":wrapper}),
                     );
                 }
             }
@@ -582,18 +621,35 @@ pub fn run(tier: Tier) -> i32 {
 }
 
 /// child mode: decode `depth` nested constructed elements on a 2 MiB stack
-pub fn depth_child(depth: usize) -> i32 {
+pub fn depth_child(depth: usize, wrapper: &str) -> i32 {
+    // identifier octets of the nested constructed elements: universal SEQUENCE, context,
+    // application, private, or all of them in turn; the outermost element is always a SEQUENCE
+    let tags: Vec<u8> = match wrapper {
+        "context" => vec![0xa0],
+        "application" => vec![0x60],
+        "private" => vec![0xe0],
+        "mixed" => vec![0x30, 0xa3, 0x64, 0xe0, 0x31],
+        _ => vec![0x30],
+    };
     let h = std::thread::Builder::new()
         .stack_size(2 * 1024 * 1024)
         .spawn(move || {
-            // innermost first: 02 01 01, then wrap
-            let mut b: Vec<u8> = vec![0x02, 0x01, 0x01];
-            for _ in 0..depth {
-                let mut n = vec![0x30];
-                ber::enc_len(&mut n, b.len(), ber::LenForm::Minimal);
-                n.extend_from_slice(&b);
-                b = n;
+            // innermost first: 02 01 01; the headers are computed from the inside out and
+            // written in one pass (linear in the depth)
+            let inner: Vec<u8> = vec![0x02, 0x01, 0x01];
+            let mut headers: Vec<Vec<u8>> = Vec::with_capacity(depth);
+            let mut cur = inner.len();
+            for d in 0..depth {
+                let mut h = vec![if d + 1 == depth { 0x30 } else { tags[d % tags.len()] }];
+                ber::enc_len(&mut h, cur, ber::LenForm::Minimal);
+                cur += h.len();
+                headers.push(h);
             }
+            let mut b: Vec<u8> = Vec::with_capacity(cur);
+            for h in headers.iter().rev() {
+                b.extend_from_slice(h);
+            }
+            b.extend_from_slice(&inner);
             let o = decode_outcome(&b, true);
             println!("depth={} bytes={} outcome={:?}", depth, b.len(), o);
         })
@@ -616,7 +672,7 @@ pub fn replay(v: &serde_json::Value) -> i32 {
         println!("crate decoder: {:?}", decode_outcome(&b, true));
     }
     if let Some(d) = v["replay"]["depth"].as_u64() {
-        return depth_child(d as usize);
+        return depth_child(d as usize, v["replay"]["wrapper"].as_str().unwrap_or("universal"));
     }
     0
 }
